@@ -71,12 +71,16 @@ MkMulti(s) ==
       pcons |-> Couple(s.pat, n) \o (IF s.pown THEN ParentExtraCons(n) ELSE <<>>),
       pobj |-> ParentObj(s.pat, n) \o (IF s.pown THEN ParentExtraObj ELSE <<>>), clone |-> s.clone, pown |-> s.pown,
       \* history variant (C12.h): after a first transcription the stage-1 parameter (if any) is set again and stage 1 gets one more constraint
-      reset |-> s.reset, stagefirst |-> s.stagefirst]
+      reset |-> s.reset, stagefirst |-> s.stagefirst,
+      \* where the coupling constraints are declared: on the parent, or on the later / earlier of the two stages they connect
+      \* (the NLP is the same: a point constraint is one row wherever it was declared)
+      pon |-> s.pon]
 
 KindSeqs == {<<a>> : a \in KindIds} \cup {<<a, b>> : a \in KindIds, b \in KindIds}
             \cup (IF Thorough THEN {<<a, b, c>> : a \in {"A", "B"}, b \in KindIds, c \in {"C", "D"}} ELSE {<<"A", "B", "D">>, <<"B", "C", "A">>})
 Space == {s \in [kinds : KindSeqs, hz : {"num", "fT", "fb"}, pat : {"none", "chain", "time"}, clone : BOOLEAN, withInt : BOOLEAN,
-                 reset : BOOLEAN, stagefirst : BOOLEAN, pown : BOOLEAN, seed : {Seed}] :
+                 reset : BOOLEAN, stagefirst : BOOLEAN, pown : BOOLEAN, pon : {"parent", "later", "earlier"}, seed : {Seed}] :
+            /\ (s.pon # "parent" => s.pat = "chain" /\ ~s.pown /\ ~s.reset /\ ~s.stagefirst /\ Len(s.kinds) >= 2)
             /\ (s.pat = "time" => s.hz = "fb")
             /\ (s.stagefirst => ~s.reset /\ s.withInt)
             /\ (s.pown => ~s.reset /\ ~s.stagefirst /\ s.pat # "time")       \* the first transcribing call is stage.sample(...) on a sub-stage
@@ -84,17 +88,19 @@ Space == {s \in [kinds : KindSeqs, hz : {"num", "fT", "fb"}, pat : {"none", "cha
             /\ (s.reset => KindOf(s.kinds[1]).rhs \in {"R2", "R3", "R4"} /\ ~s.clone)
             /\ (s.withInt => \A i \in 1..Len(s.kinds) : KindOf(s.kinds[i]).rhs # "R7")
             /\ (s.reset => KindOf(s.kinds[1]).rhs # "R7")}
-Code(s) == (IF s.pown THEN 1 ELSE 0) + (IF s.stagefirst THEN 2 ELSE 0) + Len(s.kinds) + (IF s.clone THEN 3 ELSE 0) + (IF s.withInt THEN 1 ELSE 0) + (IF s.reset THEN 5 ELSE 0)
+Code(s) == (CASE s.pon = "parent" -> 0 [] s.pon = "later" -> 1 [] OTHER -> 2) + (IF s.pown THEN 1 ELSE 0) + (IF s.stagefirst THEN 2 ELSE 0) + Len(s.kinds) + (IF s.clone THEN 3 ELSE 0) + (IF s.withInt THEN 1 ELSE 0) + (IF s.reset THEN 5 ELSE 0)
            + (CASE s.hz = "num" -> 0 [] s.hz = "fT" -> 1 [] OTHER -> 2) + (CASE s.pat = "none" -> 0 [] s.pat = "chain" -> 7 [] OTHER -> 11)
            + (CASE s.kinds[1] = "A" -> 0 [] s.kinds[1] = "B" -> 1 [] s.kinds[1] = "C" -> 2 [] s.kinds[1] = "E" -> 4 [] OTHER -> 3)
 Init == sc \in {s \in Space : Code(s) % Parts = Part}
 Next == UNCHANGED sc
 
-\* the declaration the harness reaches after the C12.h history: new parameter value, one more constraint on stage 1
+\* the declaration the harness reaches after the C12.h history: new parameter value, one more constraint and one more objective term on stage 1
 AfterReset(md) ==
   IF ~md.reset THEN md
   ELSE [md EXCEPT !.stages[1].params[1].val = Tup([c \in 1..Len(@) |-> Add(@[c], R(2))]),
-                  !.stages[1].cons = Append(@, K2)]
+                  !.stages[1].cons = Append(@, K2),
+                  !.stages[1].obj = Append(@, O2),
+                  !.stages[1].rhs[1] = Plus(@, CI(1))]          \* and the first state's derivative is declared again
 
 Emit == LET md == MkMulti(sc)
             mdf == AfterReset(md)
